@@ -1925,6 +1925,23 @@ func oracleC16(r *rng, n int, tier string) *oracleResult {
 		}
 		pool := exHistoryPool(rg, graphs)
 		fresh := map[int]*exOutcome{}
+		// texts that are not URLs, where the library repairs instead of failing: a root location a caller mistyped, then a schema
+		// `id` that is no URI (ignored: references below it are read from the document's own location)
+		{
+			type m = map[string]interface{}
+			bad := exFromGeneric(m{"file:///r/root.json": m{"swagger": "2.0", "info": m{"title": "t", "version": "1"}, "paths": m{},
+				"definitions": m{"a": m{"type": "string"}}}}, "file:///r/root.json").call("expand_spec", exOpts{})
+			bad.Spelling = rg.pick([]string{"100%", "2024:q3/root.json", "a\x7fb.json"})
+			withID := exFromGeneric(m{"http://example.com/specs/root.json": m{"swagger": "2.0", "info": m{"title": "t", "version": "1"}, "paths": m{},
+				"definitions": m{"holder": m{"id": rg.pick([]string{"100%", "%zz", ":"}), "type": "object", "properties": m{"x": m{"$ref": "defs.json#/definitions/x"}}}}},
+				"http://example.com/specs/defs.json": m{"definitions": m{"x": m{"type": "integer", "description": "x of defs"}}}}, "http://example.com/specs/root.json").call("expand_spec", exOpts{})
+			bad.InProcess, withID.InProcess = true, true
+			pool = append(pool, bad, withID)
+			h := &exHistory{Pool: pool, History: []int{len(pool) - 2, len(pool) - 1, len(pool) - 2, len(pool) - 1}}
+			fs := checkC16With(h, fresh)
+			t.res.Evaluations += 3
+			t.eval(exCompactHistory(h), fs, nil)
+		}
 		for hi := 0; hi < perGroup; hi++ {
 			h := &exHistory{Pool: pool}
 			for k := 2 + rg.intn(29); k > 0; k-- {
